@@ -65,6 +65,7 @@ def run(ctx):
     parts = [("yaml", lambda: yaml_strings(ctx, tally, stats)), ("tab", lambda: tabular(ctx, tally, stats)),
              ("cbor", lambda: corr(ctx, tally, stats, "cbor", "c14-cbor")), ("toml", lambda: corr(ctx, tally, stats, "toml", "c14-toml")),
              ("rt", lambda: round_trips(ctx, tally, stats)), ("xml", lambda: xml_fixpoint(ctx, tally, stats)),
+             ("xmlm", lambda: xml_model(ctx, tally, stats)),
              ("cli", lambda: cli_agreement(ctx, tally, stats))]
     for name, f in parts:
         if not only or name in only:
@@ -73,17 +74,18 @@ def run(ctx):
         ctx.notes.append("restricted run: C14_ONLY=" + ",".join(only))
 
     tally.flush()
-    ev = sum(stats.get(k, 0) for k in ("yaml_strings", "yaml_raw_reads", "tab_cases", "cbor_cases", "toml_cases", "rt_cases"))
+    ev = sum(stats.get(k, 0) for k in ("yaml_strings", "yaml_raw_reads", "tab_cases", "cbor_cases", "toml_cases", "rt_cases", "xml_model_cases"))
     ctx.coverage.update({
         "evaluations": ev,
         "distinct_nontrivial": stats.get("yaml_plain", 0) + stats.get("yaml_read_claims", 0) + stats.get("tab_cases", 0)
-        + stats.get("cbor_cases", 0) + stats.get("toml_cases", 0) + stats.get("rt_in_domain", 0) + stats.get("rt_reject", 0),
+        + stats.get("cbor_cases", 0) + stats.get("toml_cases", 0) + stats.get("rt_in_domain", 0) + stats.get("rt_reject", 0)
+        + stats.get("xml_model_cases", 0),
         "rule": "a YAML string counts when the writer leaves it plain (the quoting decision matters) or the model makes a claim "
                 "about its raw reading; a tabular text / row counts always (every byte drives the field state machine); a round trip "
                 "counts when the value is inside the documented domain or must be rejected",
         "samples": stats.get("samples", [])[:8],
         "traces_validated_against_impl": stats.get("yaml_strings", 0) + stats.get("yaml_read_claims", 0) + stats.get("tab_cases", 0)
-        + stats.get("cbor_cases", 0) + stats.get("toml_cases", 0),
+        + stats.get("cbor_cases", 0) + stats.get("toml_cases", 0) + stats.get("xml_model_cases", 0),
         "distribution": {k: v for k, v in stats.items() if k != "samples"},
         "exhaustive": False,
         "exhaustive_small_scope": "YAML: all strings of length <= %d over a 35-symbol indicator alphabet; CSV/TSV: all texts of length <= %d over 16 bytes"
@@ -95,6 +97,9 @@ def run(ctx):
         "base64 STANDARD engine inverts itself; ryu prints a finite double so that it parses back to the same double (round trips of the float pool)",
         "the reader's char-level tests only involve ASCII, so the byte-level model equals the char-level code on valid UTF-8",
         "hifijson's number lexer is modelled from its source (num_part); tied by the CSV/TSV field correspondence",
+        "xmlparser delivers for a well-formed text the token stream the document generator intends (names split at their one colon, "
+        "payloads and literals without delimiters, white space outside the root dropped), and for what toxml writes the tokens of "
+        "Xml.render — both exercised on every generated document (xp / xr cases); the internal DTD subset is the source slice between DtdStart and DtdEnd",
     ]
 
 
@@ -330,6 +335,10 @@ def round_trips(ctx, tally, stats):
 # ----------------------------------------------------------------------------------------------- XML
 
 def xml_cause(doc):
+    import re
+    if re.search(rb"=\s*'[^'<]*\"[^'<]*'", doc):
+        # (only a third of the generated documents contain such values)
+        return "attr-double-quote"
     if b"standalone" in doc.split(b"?>")[0]:
         return "xmldecl-standalone"
     if b"<!DOCTYPE" in doc and (b"SYSTEM" in doc or b"PUBLIC" in doc):
@@ -375,6 +384,60 @@ def xml_fixpoint(ctx, tally, stats):
     ctx.log("xml fixpoint: %s" % dist)
 
 
+
+def xml_model(ctx, tally, stats):
+    """impl-model of the XML reader/writer (Lean `C14/Xml.lean`, theorem `xml_fixpoint`) vs the real code:
+    `xp` reader on the generator's token stream vs `fromxml` on its text (this is also where the xmlparser
+    contract — the text tokenizes to the intended tokens — is exercised); `xw`/`xm` writer bytes / rejection;
+    `xr` real `fromxml` of the real `toxml` output vs the model reader on `render`."""
+    out = ctx.harness(["c14", "xml-model"])
+    rows = [l.split("\t") for l in out.splitlines() if l]
+    rows = [r for r in rows if len(r) == 4]
+    answers = ctx.model([r[1] for r in rows])
+    kinds, bad = {}, 0
+    verdicts = {}
+    for (cid, req, real, doc), m in zip(rows, answers):
+        kind = cid[:2]
+        kinds[kind] = kinds.get(kind, 0) + 1
+        verdicts[kind + ":" + real.split(" ")[0] + ("" if real[:1] != "E" else real[1:])] = verdicts.get(kind + ":" + real.split(" ")[0] + ("" if real[:1] != "E" else real[1:]), 0) + 1
+        text = bytes.fromhex(doc).decode("utf8", "replace") if doc != "-" else None
+        if real in ("PANIC", "E panic"):
+            tally.add("panic:xml:" + req[:160], "XML reader/writer panics", {"request": req[:400], "document": text})
+            continue
+        if m == real or (kind in ("xw", "xm") and m == "-"):
+            continue
+        case = {"request": req[:600], "real": real[:400], "model": m[:400]}
+        if text is not None:
+            case["document"] = text[:400]
+            case["replay"] = "printf '%s' '<document>' | jaq -Rs -c '[fromxml] | ., (map(toxml) | add), (map(toxml) | add | [fromxml])'"
+        if kind == "xr" and m == "Q":
+            # an attribute value contains the quote the writer puts around it: outside the tokenizer contract.
+            # The property demands fromxml|toxml|fromxml = fromxml: compare the real result with the values.
+            orig = "V " + " ".join(req.split(" ")[1:])
+            if vx_canon_eq(orig, real):
+                continue
+            tally.add("xml:attr-double-quote",
+                      "fromxml|toxml|fromxml differs from fromxml: an attribute value containing `\"` (legal between single quotes) "
+                      "is written between double quotes by toxml: " + (text or "")[:200], case, broken=["xml_fixpoint"])
+            continue
+        bad += 1
+        tally.add("xml-corr:%s:%s" % (kind, req[:160]),
+                  {"xp": "real fromxml and the model reader disagree on a generated document (or xmlparser does not tokenize it as intended)",
+                   "xw": "real toxml and the model writer emit different bytes for a value fromxml produced",
+                   "xm": "real toxml and the model writer disagree on a user-made / invalid value",
+                   "xr": "real fromxml(toxml(v)) and the model reader on the rendered tokens disagree"}.get(kind, kind),
+                  case, broken=["correspondence xml"])
+    stats["xml_model_cases"] = len(rows)
+    stats["xml_model_kinds"] = kinds
+    stats["xml_model_real_verdicts"] = verdicts
+    stats["xml_model_disagreements"] = bad
+    stats.setdefault("samples", []).extend([{"request": r[1][:200], "real": r[2][:200]} for r in rows[0:1] + rows[2:3]])
+    ctx.log("xml model correspondence: %d cases %s, %d disagreements; real verdicts %s" % (len(rows), kinds, bad, verdicts))
+
+
+def vx_canon_eq(a, b):
+    return a.split() == b.split()
+
 # ----------------------------------------------------------------------------------------------- CLI
 
 def cli_agreement(ctx, tally, stats):
@@ -411,5 +474,20 @@ def cli_agreement(ctx, tally, stats):
                     bad += 1
                     tally.add("cli-agreement-write:%s:%d" % (fmt, i), "to%s output is not read by --from %s like --to %s output" % (fmt, fmt, fmt),
                               {"input": sample[i], "filter_written": text2[:300].decode("utf8", "replace")})
+    # XML: `--from xml` / `--to xml` against `fromxml` / `toxml`
+    for i, doc in enumerate([b'<?xml version="1.0" standalone="yes"?><!DOCTYPE a SYSTEM "a.dtd"><a x="1" y:z=\'2\'>t<b/><!--c--><![CDATA[d]]><?p q?></a>',
+                             b'<a>\n <b k="v">x &amp; y</b>\n</a>\n']):
+        rc1, via_cli = run(["--from", "xml", "-c", "."], doc)
+        rc2, via_filter = run(["-Rs", "-c", "fromxml"], doc)
+        rc3, w_cli = run(["--from", "xml", "--to", "xml", "."], doc)
+        rc4, w_filter = run(["-Rs", "-r", "[fromxml | toxml] | .[]"], doc)
+        rc5, back = run(["--from", "xml", "-c", "."], w_cli)
+        n += 1
+        if rc1 or rc2 or rc3 or rc4 or rc5 or via_cli != via_filter or w_cli.split() != w_filter.split() or back != via_cli:
+            bad += 1
+            tally.add("cli-agreement:xml:%d" % i, "--from/--to xml and fromxml/toxml disagree",
+                      {"input": doc.decode(), "via_cli": via_cli[:300].decode("utf8", "replace"), "via_filter": via_filter[:300].decode("utf8", "replace"),
+                       "to_cli": w_cli[:300].decode("utf8", "replace"), "to_filter": w_filter[:300].decode("utf8", "replace"),
+                       "exit_codes": [rc1, rc2, rc3, rc4, rc5]})
     stats["cli_checks"] = n
     ctx.log("cli agreement: %d checks, %d disagreements" % (n, bad))
